@@ -316,11 +316,17 @@ fn push_case(cases: &mut Vec<Case>, family: &str, c: Cell) {
     if c.nodes.len() < 2 || c.ncoords <= 2 {
         return;
     }
+    // cells whose flow graph is empty (defect D22, fixed) are counted in their own family
     if flow_graph_nonempty(&c) {
         cases.push(render(family, &c));
-    } else if std::env::var("TBX_C03_EMPTY").is_ok() {
+    } else {
         cases.push(render("empty-flow-graph", &c));
     }
+}
+
+/// line coordinates: node i at (10*i + jitter, 3*i): distinct keys on every axis
+fn line_nodes(n: usize) -> Vec<(usize, i32, i32)> {
+    (0..n).map(|i| (i, 10 * i as i32, 3 * i as i32)).collect()
 }
 
 fn generate(rng: &mut Rng, tier: Tier, cases: &mut Vec<Case>) {
@@ -419,6 +425,47 @@ fn generate(rng: &mut Rng, tier: Tier, cases: &mut Vec<Case>) {
         let mut c = cell_of(&g, &cs, &ids, axis, b, BIG, rng);
         c.ncoords = 3.max(n) + rng.below(3) as usize;
         push_case(cases, "tiny", c);
+    }
+    // (7) cells whose contracted graph has no edge (D22, fixed): no edges at all, or all edges inside
+    //     the two contracted ends, with isolated / self-looped middle nodes
+    for _ in 0..12 * scale {
+        let n = 2 + rng.below(9) as usize;
+        let b = *rng.pick(&[0.1, 0.25, 0.3, 0.49, 0.49999999999999994]);
+        let k = std::cmp::max(1, (n as f64 * b) as usize);
+        let axis = rng.below(2) as usize; // line coordinates are increasing on axes 0, 1, 2
+        let mut edges = Vec::new();
+        for u in 0..n {
+            for v in 0..n {
+                let same_end = (u < k && v < k) || (u >= n - k && v >= n - k);
+                if u != v && same_end && rng.chance(1, 2) {
+                    edges.push((u, v));
+                }
+                if u == v && rng.chance(1, 6) {
+                    edges.push((u, u));
+                }
+            }
+        }
+        let c = Cell { axis, b, bound: if rng.chance(1, 4) { rng.range(0, 1) as i32 } else { BIG }, ncoords: 3.max(n) + rng.below(40) as usize, nodes: line_nodes(n), edges };
+        push_case(cases, "empty-flow-graph", c);
+    }
+    // (8) input self-loops on top of ordinary cells (a node all of whose edges are self-loops is not part
+    //     of the flow graph and must land on the right)
+    for _ in 0..20 * scale {
+        let w = 3 + rng.below(6) as usize;
+        let h = 2 + rng.below(5) as usize;
+        let mut g = { let kn = 3 + rng.below(3); let dg = rng.chance(1, 3); grid(rng, w, h, kn, 6, dg) };
+        for id in 0..w * h {
+            if rng.chance(1, 5) {
+                let at = rng.below(g.edges.len() as u64 + 1) as usize;
+                g.edges.insert(at, (id, id));
+            }
+        }
+        let axis = rng.below(4) as usize;
+        let cs = coords_for(rng, &g, true, axis);
+        let ids = if rng.chance(1, 2) { (0..w * h).collect() } else { sub_ids(rng, &g) };
+        let b = pick_b(rng);
+        let c = cell_of(&g, &cs, &ids, axis, b, BIG, rng);
+        push_case(cases, "selfloop", c);
     }
 }
 
